@@ -30,3 +30,20 @@ package routingtable
 //@   flag wired 2
 //@   requires #args: len(cmd.Args) >= 1
 //@   requires #parts: r.parts()
+
+// ---------------------------------------------------------------------------------------------------
+// C05: member-count quorum. below_quorum: this member currently sees fewer members than MemberCountQuorum.
+//@ pure func (r *RoutingTable) below_quorum() bool = r.config.MemberCountQuorum > r.numMembers
+
+//@ func (r *RoutingTable) CheckMemberCountQuorum() error
+//@   props C05
+//@   flag termination
+//@   requires #wired: r != nil && r.config != nil
+//@   ensures #exact [C05]: (result == ErrClusterQuorum) == r.below_quorum()
+//@   ensures #err_kind [C05]: result == nil || result == ErrClusterQuorum
+//@   modifies nothing
+
+//@ func (r *RoutingTable) CheckBootstrap() error
+//@   props C05
+//@   trusted
+//@   modifies nothing
